@@ -84,3 +84,51 @@ def stage(V, tier, rng):
                                         'got': o if o['k'] != 'ok' else 'another program than the %s spelling gives' % ('epfs' if sp != 2 else 'dtml')}})
                 break
     return len(jobs)
+
+
+# ---------------------------------------------------------------------------------------------
+# the template's encoding reaches every tag of every spelling alike
+
+ENC_T = [
+    [('html', 'A <dtml-with o>v=<dtml-var v>.</dtml-with> Z'), ('html', 'A <!--#with o-->v=<!--#var v-->.<!--#/with--> Z'),
+     ('epfs', 'A %(with o)[v=%(v)s.%(with)] Z')],
+    [('html', '<dtml-let w=v>[<dtml-var w>|<dtml-var v html_quote>]</dtml-let>'), ('html', '<!--#let w=v-->[<!--#var w-->|<!--#var v html_quote-->]<!--#/let-->'),
+     ('epfs', '%(let w=v)[[%(w)s|%(v html_quote)s]%(let)]')],
+    [('html', '<dtml-in s>(<dtml-var v>,<dtml-var sequence-item>)</dtml-in>'), ('html', '<!--#in s-->(<!--#var v-->,<!--#var sequence-item-->)<!--#/in-->'),
+     ('epfs', '%(in s)[(%(v)s,%(sequence-item)s)%(in)]')],
+    [('html', '<dtml-try>t<dtml-var v><dtml-var nope><dtml-except>e<dtml-var v></dtml-try>'),
+     ('html', '<!--#try-->t<!--#var v--><!--#var nope--><!--#except-->e<!--#var v--><!--#/try-->'),
+     ('epfs', '%(try)[t%(v)s%(nope)s%(except)[e%(v)s%(try)]')],
+    [('html', '<dtml-if a>i<dtml-var v upper><dtml-else>n</dtml-if>&dtml-v;'), ('html', '<!--#if a-->i<!--#var v upper--><!--#else-->n<!--#/if-->&dtml-v;'),
+     ('epfs', '%(if a)[i%(v upper)s%(else)[n%(if)]%(v html_quote)s')],
+    [('html', '<dtml-raise KeyError>m<dtml-var v></dtml-raise>'), ('html', '<!--#raise KeyError-->m<!--#var v--><!--#/raise-->'),
+     ('epfs', '%(raise KeyError)[m%(v)s%(raise)]')],
+]
+
+
+class _O:
+    q = 1
+
+
+def enc_stage(V):
+    text = 'caf\xe9 <\xfc>'
+    for enc in ('latin-1', 'cp1252', 'utf-8', 'utf-16'):
+        for case in ENC_T:
+            outs = []
+            for syn, src in case:
+                cls = front.template_class(syn)
+                per = []
+                for val in (text.encode(enc), text):
+                    V.count('encoding_renderings')
+                    try:
+                        r = cls(src, encoding=enc)(v=val, o=_O(), s=[val, 'x'], a=1)
+                        per.append(r if isinstance(r, str) else repr(r))
+                    except Exception as e:  # noqa
+                        a = e.args[0] if e.args else ''
+                        per.append('RAISED %s %s' % (type(e).__name__, a if isinstance(a, str) else repr(a)))
+                outs.append(per)
+            for (syn, src), o in zip(case[1:], outs[1:]):
+                if o != outs[0]:
+                    V.violation({'kind': 'departure', 'clause': 'renders-differ', 'cls': 'renders-differ-under-encoding',
+                                 'detail': {'encoding': enc, 'a': case[0][1], 'b': src, 'got_a': outs[0], 'got_b': o}})
+                    break
